@@ -165,6 +165,17 @@ func VerifH_C02_plan() {
 		}
 		lastCount = kind == "count"
 	}
+	// optionally one more step that makes the previous element step a non-final one
+	if vParam("TAIL", 0) == 1 {
+		switch vChoice("tail", 3) {
+		case 1:
+			stmts = append(stmts, sCount())
+			lastCount = true
+		case 2:
+			stmts = append(stmts, sOut())
+			lastCount = false
+		}
+	}
 	lit, errL := c02Literal(g.clone(true), stmts)
 	honour := vChoice("backend", 2) == 0
 	gp := g.clone(honour)
